@@ -31,6 +31,8 @@ mod big;
 mod seq;
 #[path = "c07/lookalike.rs"]
 mod lookalike;
+#[path = "c07/escapes.rs"]
+mod escapes;
 use common::*;
 use seq::{Call, GenParams, Runner, Summ};
 
@@ -129,7 +131,7 @@ impl<'a> Ctx<'a> {
                             let what = first_diff(&strip_pos(exp), &strip_pos(got));
                             let sig = if c.label.contains("block-string") { "block-string-raw".to_string() } else { format!("structure:{what}") };
                             self.rep.fail("O", &sig, &format!("{:?} parses to a different document than it denotes: expected {} got {}", c.text, strip_pos(exp).to_line(), strip_pos(got).to_line()), c.json());
-                        } else if got != exp && !c.label.starts_with("block-string") {
+                        } else if got != exp && !c.label.starts_with("block-string") && !c.label.contains("escape-forms") {
                             let what = first_diff(exp, got);
                             self.rep.fail("O", &format!("positions:{what}"), &format!("{:?}: a reported position is not the token start: expected {} got {}", c.text, exp.to_line(), got.to_line()), c.json());
                         }
@@ -338,7 +340,14 @@ fn corpus() -> Vec<Case> {
     add("op", "query { a(s: \"\\u{110000}\") }", None, "code-point-out-of-range");
     add("op", "query { a(s: \"\\u{123456789}\") }", None, "hex-overflow");
     add("op", "query { a(s: \"\\u{00000000041}\") }", Some("(doc (op query (noname) () () ((field (noalias) \"a\" (p 0 8) ((arg \"s\" (p 0 10) (str \"A\" (p 0 13)))) () (nosel))) (p 0 0)))"), "long-hex");
-    add("op", "query { a(s: \"\\uD83D\\uDE00\") }", None, "surrogate-pair");
+    // fix fff8e9c: a surrogate pair written as two \uXXXX escapes in ONE literal is one supplementary character
+    add("op", "query { a(s: \"\\uD83D\\uDE00\") }", Some("(doc (op query (noname) () () ((field (noalias) \"a\" (p 0 8) ((arg \"s\" (p 0 10) (str \"\u{1F600}\" (p 0 13)))) () (nosel))) (p 0 0)))"), "surrogate-pair");
+    add("op", "query { a(s: \"x\\ud83d\\ude00\\uDBFF\\uDFFFy\") }", Some("(doc (op query (noname) () () ((field (noalias) \"a\" (p 0 8) ((arg \"s\" (p 0 10) (str \"x\u{1F600}\u{10FFFF}y\" (p 0 13)))) () (nosel))) (p 0 0)))"), "surrogate-pair");
+    add("ts", "\"\\uD83D\\uDE00\" scalar S", Some("(tsdoc (typedef scalar (desc \"\u{1F600}\") \"S\" (p 0 22) () () () () () () (p 0 15)))"), "surrogate-pair");
+    for t in ["query { a(s: \"\\uD83D\") }", "query { a(s: \"\\uDE00\\uD83D\") }", "query { a(s: \"\\uD83Dx\\uDE00\") }", "query { a(s: \"\\uD83D\\u{DE00}\") }",
+        "query { a(s: \"\\uD83D\\uD83D\\uDE00\") }", "query { a(s: \"\\uD83D\") b(t: \"\\uDE00\") }", "query { a(s: \"\\uD83D\\n\") }", "query { a(s: \"ok\\uD83D\\uDE00\" t: \"\\uDC00\") }"] {
+        add("op", t, None, "surrogate-misuse");
+    }
     add("op", "query { a(s: \"\"\"\n  a\n\"\"\") }", Some("(doc (op query (noname) () () ((field (noalias) \"a\" (p 0 8) ((arg \"s\" (p 0 10) (str \"a\" (p 0 13)))) () (nosel))) (p 0 0)))"), "block-string");
     // text that looks like an escape / token of another lexical context (after an escaped backslash, in a comment,
     // in a block string): it denotes itself
@@ -724,6 +733,20 @@ fn main() {
     ctx.run(&batch);
     let blocks = block_cases(&mut rng, args.budget(200, 2000));
     ctx.run(&blocks);
+    // ---- every way of writing a character in a normal string (plain, simple escape, \uXXXX, \u{…}, surrogate pair), and
+    //      surrogate misuse; an own generator state, so that the streams that follow are unchanged
+    if !only_new {
+        let mut erng = Rng::new(args.seed ^ 0x00E5_CA9E_F0B3);
+        let mut batch: Vec<Case> = vec![];
+        for (i, e) in escapes::valid_cases(&mut erng, args.budget(400, 4000)).into_iter().chain(escapes::invalid_cases(&mut erng, args.budget(300, 3000))).enumerate() {
+            if i < 3 {
+                ctx.rep.sample(json!({"kind": e.kind, "escape-forms": e.text.chars().take(200).collect::<String>()}));
+            }
+            let label = if e.expect.is_some() { format!("valid:{}", e.label.replace(':', "-")) } else { e.label.to_string() };
+            batch.push(Case { kind: e.kind, text: e.text, expect: e.expect, label, features: e.features });
+        }
+        ctx.run(&batch);
+    }
     // ---- look-alikes of other lexical contexts in comments, block strings, normal strings, import paths
     if !only_new || args.extra.get("lookalike").is_some() {
         let n_look = if search { 3000 } else { args.budget(500, 6000) };
